@@ -24,6 +24,7 @@ THEOREMS = [
     "C07_dangling_link_unloadable",
     "C07_running_link_unloadable",
     "C07_foreign_connection_unloadable",
+    "C07_composite_cache_forgotten",
 ]
 RULE = (
     "seeded random graphs built from REAL objects (term function nodes, transformers, for-loops, nested macros "
@@ -265,7 +266,7 @@ _VARIANT = None
 
 
 def variant():
-    """(revIter, firing, pushLinks) of the library under test, probed on three tiny real graphs"""
+    """(revIter, firing, pushLinks, keepCache) of the library under test, probed on tiny real graphs"""
     global _VARIANT
     if _VARIANT is not None:
         return _VARIANT
@@ -299,7 +300,9 @@ def variant():
     m.k.inputs.a._value = 2  # out of step on purpose
     m2 = pickle.loads(pickle.dumps(m))
     push = m2.k.inputs.a.value == 1
-    _VARIANT = (int(rev), int(fir), int(push))
+    wf.run()
+    keep = pickle.loads(pickle.dumps(wf))._cached_inputs is not None
+    _VARIANT = (int(rev), int(fir), int(push), int(keep))
     return _VARIANT
 
 
@@ -521,6 +524,14 @@ def run_impl(case):
     if how and loaded is not None and not path and mid is None:
         if case.get("rerun_clear_fail"):
             nodes.FAIL.clear()
+        if case.get("rerun_eq_cache"):
+            # same cache conditions on both sides: no composite remembers its last run
+            from pyiron_workflow.nodes.composite import Composite
+
+            for g in (root, loaded):
+                for n in _all_nodes(g):
+                    if isinstance(n, Composite):
+                        n._cached_inputs = None
         res["rerun"] = {"orig": _rerun(root, how), "copy": _rerun(loaded, how)}
         stats["rerun"] = 1
 
@@ -529,7 +540,7 @@ def run_impl(case):
     rows = []
     rid = model_rows(I, before, rows)
     rows.append(f"build {rid}")
-    v = "%d %d %d" % res["variant"]
+    v = "%d %d %d %d" % res["variant"]
     obs = ["built"]
     if before["has_parent"]:
         # the driver starts from the parent's path: describe the child as a root whose detached path is the parent's
@@ -701,18 +712,25 @@ def oracle(case, impl):
             return [f]
     rr = impl.get("rerun")
     if rr:
+        # did a composite that remembered its last run come back without that memory?
+        last = impl["rounds"][-1]
+        A = dict(_walk(last))
+        lost = any(s["children"] and s["cached"] is not None and A[p]["cached"] is None
+                   for p, s in _walk(before) if p in A)
+        cause = "composite-cache-lost" if (lost and not case.get("rerun_eq_cache")) else "other"
         o, c = rr["orig"], rr["copy"]
         for k, (so, sc) in enumerate(zip(o, c)):
             if so.get("res") != sc.get("res"):
-                return [_fail("rerun-outcome", f"step {k}: original {so.get('res')} vs copy {sc.get('res')}")]
+                return [_fail("rerun-outcome", f"step {k}: original {so.get('res')} vs copy {sc.get('res')}",
+                              cause=cause)]
             calls_o, calls_c = so.get("calls", []), sc.get("calls", [])
             if case.get("has_executor"):
                 calls_o, calls_c = sorted(calls_o), sorted(calls_c)
             if calls_o != calls_c:
-                return [_fail("rerun-execution-order", f"step {k}: calls {calls_o} vs {calls_c}")]
+                return [_fail("rerun-execution-order", f"step {k}: calls {calls_o} vs {calls_c}", cause=cause)]
             if so.get("state") != sc.get("state"):
                 d = next(((x, y) for x, y in zip(so["state"], sc["state"]) if x != y), None)
-                return [_fail("rerun-outputs", f"step {k}: {d}")]
+                return [_fail("rerun-outputs", f"step {k}: {d}", cause=cause)]
     return []
 
 
@@ -963,6 +981,8 @@ def _mk_case(rng, tier, mode):
                 case["rerun"] = [["set", [tgt["label"]], "b", "new"], "run"]
             else:
                 case["rerun"] = ["run"]
+    if case.get("rerun") and rng.random() < 0.5:
+        case["rerun_eq_cache"] = True
     if mode == "foreign" and root["kind"] == "wf":
         tgt = next((c for c in root["spec"]["children"] if c["kind"] == "F"), None)
         if tgt is not None:
@@ -1011,13 +1031,18 @@ def corpus():
             "returns": [["c", "o"]]}}], "data": []}}
     yield {"root": m1, "state": "run", "backend": "file", "rounds": 1, "target": [], "fail": [], "rerun": ["run"],
            "mode": "corpus"}
-    # KF-C07-2 witness: a.ran fires b then c (wired c first), hand-made flow inside a macro
-    m2 = {"kind": "M1", "label": "m", "const": {"x": 1}, "spec": {
+    # KF-C07-2 witness: a.ran fires b then c (wired c first), hand-made flow in a workflow
+    m2 = {"kind": "wf", "label": "w", "spec": {
+        "auto": False,
         "children": [_leafF("a", 1), _leafF("b", 2), _leafF("c", 3)],
-        "data": [["a", "a", ["arg", "x"]], ["b", "a", ["child", "a", "o"]], ["c", "a", ["child", "a", "o"]]],
-        "signals": [["a", "ran", "c", "run"], ["a", "ran", "b", "run"]], "starting": ["a"],
-        "returns": [["c", "o"]]}}
+        "data": [["b", "a", ["child", "a", "o"]], ["c", "a", ["child", "a", "o"]]],
+        "signals": [["a", "ran", "c", "run"], ["a", "ran", "b", "run"]], "starting": ["a"]}}
     yield {"root": m2, "state": "fresh", "backend": "pickle", "rounds": 1, "target": [], "fail": [],
+           "rerun": ["run"], "mode": "corpus"}
+    # KF-C07-5 witness: a composite that ran (and so remembers its inputs) is pickled; run both again
+    w5 = {"kind": "wf", "label": "w", "spec": {"children": [{"label": "a", "kind": "F", "i": 1, "const": {},
+                                                                  "nocache": True}], "data": []}}
+    yield {"root": w5, "state": "run", "backend": "pickle", "rounds": 1, "target": [], "fail": [],
            "rerun": ["run"], "mode": "corpus"}
     # KF-C07-3 witness: a macro argument nobody uses
     m3 = {"kind": "M2", "label": "m", "const": {"x": 1}, "spec": {
